@@ -8,7 +8,7 @@ use digital_test_runner::TestCase;
 pub const META_C15: Meta = Meta {
     id: "C15",
     level: "exploration",
-    rule: "Four monitors per case (profiles `flow`+`expand`+`virtual`, 0-5 declare statements, some programs using random with the seed pinned through the hook, ~40% static programs): (1) re-parse: the same text is parsed and bound 6 times in one process (fresh HashMap RandomState each time) - all TestCase values must be ==, with identical `signals` order and identical Display; a digest of (Display, signal order, row stream) is also written per case and the orchestrator compares the digests produced by two separate processes (the dev-profile and release-profile shards run the same cases); (2) re-iterate: 3 iterations of one &TestCase with fresh devices replaying one script give identical item streams and vars(); (3) interleave: 2-4 iterators over one &TestCase, each with its own device, next() interleaved by round-robin / sequential / PRNG schedules - every stream equals the solo stream; (4) static: try_iter_static().is_ok() iff the model reads no outputs (scope rule of C11), and then its (inputs incl. changed, expected, line) stream equals the projection of every dynamic run against 4 devices (empty layout, all outputs unique numbers, all Z, permuted subset with X), error items at the same index. Non-trivial = >= 2 virtual signals, or >= 2 interleaved iterators with >= 3 rows each under a non-sequential schedule, or a static program with a C/X expansion.",
+    rule: "Four monitors per case (profiles `flow`+`expand`+`virtual`, 0-5 declare statements, some programs using random with the seed pinned through the hook, ~40% static programs): (1) re-parse: the same text is parsed and bound 6 times in one process (fresh HashMap RandomState each time) - all TestCase values must be ==, with identical `signals` order and identical Display; a digest of (Display, signal order, row stream) is also written per case and the orchestrator compares the digests produced by two separate processes (the dev-profile and release-profile shards run the same cases); (2) re-iterate: 3 iterations of one &TestCase with fresh devices replaying one script give identical item streams and vars(); (2b) abandon: an iterator is dropped after a random number of steps (possibly inside a C/X expansion), the next full iteration must equal the first; (3) interleave: 2-4 iterators over one &TestCase, each with its own device, next() interleaved by round-robin / sequential / PRNG schedules - every stream equals the solo stream; (4) static: try_iter_static().is_ok() iff the model reads no outputs (scope rule of C11), and then its (inputs incl. changed, expected, line) stream equals the projection of every dynamic run against 4 devices (empty layout, all outputs unique numbers, all Z, permuted subset with X), error items at the same index. Non-trivial = >= 2 virtual signals, or >= 2 interleaved iterators with >= 3 rows each under a non-sequential schedule, or a static program with a C/X expansion.",
     assumptions: &["identical device scripts give identical answers (pure function of call index and signal)"],
     quick_cases: 10_000,
     thorough_cases: 300_000,
@@ -160,7 +160,7 @@ pub fn c15(case_seed: u64, acc: &mut Acc) {
     }
     let tc = &tcs[0];
     // ---------------- (2) re-iterate
-    let opts = RunOpts { max_steps: 200, probe_after_end: 1, stop_at_error: true, seed: Some(seed) };
+    let opts = RunOpts { max_steps: 200, probe_after_end: 1, stop_at_error: true, seed: Some(seed), continue_on: None };
     let solo = run_bound(tc, &case.signals, &case.script, &opts);
     acc.evaluations += 1;
     if solo.3.len() >= 200 {
@@ -183,6 +183,37 @@ pub fn c15(case_seed: u64, acc: &mut Acc) {
         }
         if let Some(i) = same_items(&solo.3, &again.3) {
             viol!(Finding::new("reiterate-differs", format!("iteration #{} differs from the first at item {i}: {:?} vs {:?}", rep + 2, again.3.get(i).map(|s| &s.item), solo.3.get(i).map(|s| &s.item))));
+        }
+    }
+    // ---------------- (2b) abandon an iterator part-way (also in the middle of a C/X
+    // expansion), then iterate again: the earlier iterator must leave nothing behind
+    if matches!(solo.0, Construct::Ok) && solo.3.len() >= 2 {
+        let k = 1 + r.below(solo.3.len() - 1);
+        {
+            let mut d = RecDriver::new(&case.signals, &case.script);
+            let (_, s, _) = construct(tc, &mut d, Some(seed));
+            if let Some(mut s) = s {
+                for _ in 0..k {
+                    let st = s.step();
+                    if !matches!(st.item, RealItem::Row(_)) {
+                        break;
+                    }
+                }
+            }
+            // iterator and driver dropped here
+        }
+        let again = run_bound(tc, &case.signals, &case.script, &opts);
+        acc.evaluations += 2;
+        acc.event("abandoned_iterators", 1);
+        if let Some(i) = same_items(&solo.3, &again.3) {
+            viol!(Finding::new(
+                "iteration-after-abandoned-iterator-differs",
+                format!("an iterator was dropped after {k} steps; the next full iteration differs from the first at item {i}: {:?} vs {:?}", again.3.get(i).map(|s| &s.item), solo.3.get(i).map(|s| &s.item))
+            ));
+        }
+        // the static iterator shares the machinery
+        if let Ok(Ok(items)) = static_stream(tc, seed, 1 + r.below(4)) {
+            let _ = items;
         }
     }
     // ---------------- (3) interleave
